@@ -1,9 +1,9 @@
 \* design check (thorough): up to three suite files in any order
 CONSTANTS
-  RunModes = {0, 1}
+  RunModes = {0, 1, 2}
   CaseSets = {2}
   MaxSuites = 3
-  SNames = {1}
+  SNames = {1, 3}
   SModes = {0, 1}
   RelPs = {2}
   RelVs = {2}
